@@ -49,7 +49,8 @@ pub struct Case {
     pub last_n: u8,
     pub restart_before: bool,
     /// 0: the client's own outstanding request; 1: no request outstanding (answer delivered twice); 2: answer to a superseded request;
-    /// 3: the peer announces a newer last state between request and answer; 4: it announces a fork sibling in between
+    /// 3: the peer announces a newer last state between request and answer; 4: it announces a fork sibling in between;
+    /// 5: the peer serves a branch whose blocks (all but the announced tip) carry no valid PoW
     pub situation: u8,
     pub mutation: Mutation,
 }
@@ -144,6 +145,9 @@ fn valid(chain: &Chain, peer_tip: u64, req: &packed::GetLastStateProof, msg: &pa
         let n: u64 = h.header().raw().number().unpack();
         if n >= last || n as usize >= chain.blocks.len() || !vh_equal(h, &chain.verifiable_header(n)) {
             return Err("header-not-genuine");
+        }
+        if !chain.pow.engine().verify(&h.header()) {
+            return Err("header-without-valid-pow");
         }
         numbers.push(n);
     }
@@ -528,7 +532,7 @@ impl Property for C01 {
             Tier::Thorough => 1500u16,
         };
         let mutation = (prop_oneof![1 => Just(0u8), 24 => 1u8..26, 3 => Just(26u8)], any::<u16>(), any::<u8>(), any::<u64>(), prop::bool::weighted(0.4)).prop_map(|(kind, pos, sub, val, remine)| Mutation { kind, pos, sub, val, remine });
-        (any::<u64>(), 1u8..25, 1u8..30, prop_oneof![2 => Just(0u16), 3 => 1u16..200], 1u16..maxg, 0u8..6, prop::bool::weighted(0.2), prop_oneof![7 => Just(0u8), 1 => Just(1u8), 1 => Just(2u8), 3 => Just(3u8), 1 => Just(4u8)], mutation)
+        (any::<u64>(), 1u8..25, 1u8..30, prop_oneof![2 => Just(0u16), 3 => 1u16..200], 1u16..maxg, 0u8..6, prop::bool::weighted(0.2), prop_oneof![7 => Just(0u8), 1 => Just(1u8), 1 => Just(2u8), 3 => Just(3u8), 1 => Just(4u8), 3 => Just(5u8)], mutation)
             .prop_map(|(seed, n_epochs, maxlen, proven, growth, last_n, restart_before, situation, mutation)| Case {
                 seed,
                 n_epochs,
@@ -573,7 +577,16 @@ impl Property for C01 {
         let base = w.chains[0].tip();
         let fork_at = base.saturating_sub(2);
         let mut fork = w.chains[0].fork_at(fork_at, case.seed ^ 0xf0);
-        w.chains[0].mine_n(case.growth as u64);
+        if case.situation == 5 {
+            // forged continuation without work: only the announced tip is mined
+            w.chains[0].skip_pow = true;
+            w.chains[0].mine_n((case.growth as u64).max(2) - 1);
+            w.chains[0].skip_pow = false;
+            w.chains[0].mine_n(1);
+            obs.label("branch-without-pow");
+        } else {
+            w.chains[0].mine_n(case.growth as u64);
+        }
         fork.mine_n(case.growth as u64 + 2);
         // deliver everything except proof requests until the client's GetLastStateProof is in flight
         w.announce_tips(0);
@@ -730,7 +743,7 @@ impl Property for C01 {
                         }
                     }
                 }
-                if outstanding && case.situation == 0 && !is_honest_bytes {
+                if outstanding && (case.situation == 0 || case.situation == 5) && (!is_honest_bytes || case.situation == 5) {
                     let target_section = {
                         let n = honest.headers().len();
                         let i = if n == 0 { 0 } else { idx(case.mutation.pos, n) };
@@ -759,7 +772,7 @@ impl Property for C01 {
                     if Some(tip_after.clone()) != want && tip_after != tip_before_hash {
                         return finish(Err(Failure::new("valid-proof-moved-the-tip-to-another-header", format!("requested {:?} tip {:#x} :: {}", want, tip_after, desc()))));
                     }
-                    if case.situation >= 3 {
+                    if case.situation == 3 || case.situation == 4 {
                         obs.nontrivial(("valid-after-announcement", case.situation, shape, kind));
                     }
                 }
